@@ -80,11 +80,11 @@ Datagrams(kind, c) ==
 Misbehaves(kind) == kind # "good"
 
 \* the server picks a reaction to the request just sent (inside the send action)
-React(chalNow) ==
+React(round) ==
   \E kind \in Reactions :
     /\ kind = "chal" => st.rounds < MaxRounds
     /\ Misbehaves(kind) => (pc \in faulty \/ Cardinality(faulty) < MaxFaultyUnits)
-    /\ LET c == IF kind = "chal" THEN st.rounds + 1 ELSE NoChal     \* a fresh challenge value per round
+    /\ LET c == IF kind = "chal" THEN round ELSE NoChal     \* a fresh challenge value per round of the attempt
        IN  /\ net' = net \o Datagrams(kind, c)
            /\ hist' = Append(hist, [sec |-> pc, kind |-> kind, c |-> c])
     /\ faulty' = IF Misbehaves(kind) THEN faulty \cup {pc} ELSE faulty
@@ -101,7 +101,7 @@ SkipSection ==
 SendInitial ==
   /\ Running /\ st.stage = "send" /\ Toggle(pc) # "Skip" /\ st.attempt <= cfg.r + 1
   /\ sent' = Append(sent, [req |-> pc, chal |-> NoChal])
-  /\ React(NoChal)
+  /\ React(1)
   /\ st' = [st EXCEPT !.stage = "recv", !.rounds = 0, !.chal = NoChal]
   /\ UNCHANGED <<cfg, pc, rcvd, got, result>>
 
@@ -109,7 +109,7 @@ SendWithChallenge ==
   /\ Running /\ st.stage = "sendc"
   /\ sent' = Append(sent, [req |-> pc, chal |-> st.chal])
   /\ LET s2 == [st EXCEPT !.stage = "recv", !.rounds = st.rounds + 1] IN st' = s2
-  /\ React(st.chal)
+  /\ React(st.rounds + 2)
   /\ UNCHANGED <<cfg, pc, rcvd, got, result>>
 
 SectionOk ==
